@@ -24,6 +24,8 @@ def items(tier):
         sc, ec = CFGS[i % 4]
         for norm in (None, "by_overall", "by_min"):
             out.append({"kind": "values", "m": 2, "metric": metric, "sc": sc, "ec": ec, "normalize": norm, "thr": ["scalar", "(1,)", "(2,)"][i % 3], "G": 2})
+    for norm in (None, "by_overall"):
+        out.append({"kind": "values", "m": 2, "metric": "fnr", "sc": "neg", "ec": "pos", "normalize": norm, "thr": "(3,)", "G": 2})      # 3 thresholds: non-involutive orderings
     big = [("fnr", "(1,)"), ("ppv", "scalar"), ("accuracy", "(1,)")] if tier == "quick" else [(m_, "(2,)") for m_ in METRICS]
     for i, (metric, thr) in enumerate(big):
         sc, ec = CFGS[(i + 1) % 4]
@@ -100,7 +102,7 @@ def _thr(h, kind):
     if kind == "(1,)":
         t = h.real("t0")
         return [t], [t]
-    ts = h.reals("t", 2)
+    ts = h.reals("t", 3 if kind == "(3,)" else 2)
     return list(ts), ts
 
 
